@@ -195,16 +195,22 @@ def interval_guid_subset_fn():
 SEQ_LAYOUTS = [dict(s0=2, l0=5, s1=12, l1=4), dict(s0=0, l0=3, s1=3, l1=6), dict(s0=6, l0=6, s1=10, l1=8)]
 
 
+GENOME40_B = GENOME40[::-1]  # a different 40-nt sequence given the same name
+
+
 def sequence_fn(strict):
     def fn(qs, qe):
         qs, qe = concretize(qs, qe)
         with untraced():
+            # every layout on two DIFFERENT genomes that carry the same chromosome name, one after the other in the same process: each result's
+            # sequences come from its own source (nothing is shared between collections through a name- or bounds-keyed cache)
             for kw in SEQ_LAYOUTS:
-                if not one(kw, qs, qe):
-                    return False
+                for genome in (GENOME40, GENOME40_B, GENOME40):
+                    if not one(kw, qs, qe, genome):
+                        return False
             return True
 
-    def one(kw, qs, qe):
+    def one(kw, qs, qe, GENOME40):
         if True:
             par = chrom_parent(GENOME40)
             members = _members(("gene", "fc"), kw, par=chrom_parent(GENOME40))
